@@ -59,6 +59,36 @@ let () =
         let harness_trouble = note = "not-stalled" || (String.length note >= 8 && String.sub note 0 8 = "harness:") in
         if show mo <> show o || harness_trouble then begin
           incr mism; Printf.printf "MISMATCH %d %s :: model: %s\n" (ln+1) (short line) (show mo) end
+    | "LNG" :: kind :: _wrapped :: "::" :: rest ->
+        (* one goroutine's program against an interval recorder whose interval never elapses (harness c16Long), bare or
+           behind the synchronized wrapper: the systematic oracle with the number of flushers the program calls for
+           (one per BeginIteration that follows the start, an EndTest or a Reset) *)
+        incr n;
+        let m = kv rest in
+        let get key = try List.assoc key m with Not_found -> failwith ("missing " ^ key) in
+        let prog = List.map parse_call (String.split_on_char ',' (get "prog")) in
+        let (cycles, _) = List.fold_left (fun (c, running) call -> match call with
+            | Begin -> if running then (c, true) else (c + 1, true)
+            | EndTest | Reset -> (c, false)
+            | _ -> (c, running)) (0, false) prog in
+        let o = { o_blocked = (get "blocked" = "1");
+                  o_live = nat_of_int (int_of_string (get "live"));
+                  o_late = nat_of_int 0;
+                  o_flushers = nat_of_int (int_of_string (get "flushers"));
+                  o_samples = csv (get "end"); o_end = csv (get "end") } in
+        let note = get "note" in
+        if not (c16_ok_sys (nat_of_int cycles) prog o) then begin
+          incr viol;
+          Printf.printf "VIOL %d %s :: c16_ok_sys=false (%s; expected %d flushers, none left, EndTest samples %s)\n" (ln+1) (short line) note
+            cycles (join_z (spec_end_samples false Z0 prog)) end;
+        (* the transition system on the same program, round-robin: flushers left and the sum persisted by EndTest *)
+        let mo = model_obs_stress cfg_fl (nat_big (8 * List.length prog + 100)) [prog] [] in
+        let total = wrap64 (sumZ o.o_end) in
+        if int_of_nat mo.so_live <> int_of_nat o.o_live || string_of_z mo.so_total <> string_of_z total || mo.so_blocked <> o.o_blocked
+           || (String.length note >= 8 && String.sub note 0 8 = "harness:") then begin
+          incr mism; Printf.printf "MISMATCH %d %s :: model: blocked=%s live=%d total=%s\n" (ln+1) (short line) (bs mo.so_blocked)
+            (int_of_nat mo.so_live) (string_of_z mo.so_total) end;
+        ignore kind
     | "SER" :: _inner :: _g :: "::" :: rest ->
         (* NewSynchronizedRecorder over one of the recorders: calls observed inside the wrapped recorder's collector at
            once, minus one, is the overlap; the stress oracle's overlap clause (no two calls inside at once) decides *)
@@ -66,7 +96,7 @@ let () =
         let m = kv rest in
         let get key = try List.assoc key m with Not_found -> failwith ("missing " ^ key) in
         if (try get "meta" with _ -> "1") = "0" then begin
-          incr viol; Printf.printf "VIOL %d %s :: SetMetadata through the synchronized events collector did not reach the collector behind it\n" (ln+1) (short line) end
+          incr viol; Printf.printf "VIOL %d %s :: a call through the synchronized events collector (AddEvent or SetMetadata) did not reach the collector behind it\n" (ln+1) (short line) end
         else if get "blocked" = "1" then begin
           incr viol; Printf.printf "VIOL %d %s :: the synchronized recorder blocked for more than 20 s\n" (ln+1) (short line) end
         else begin
